@@ -113,7 +113,18 @@ for _k in range(10):
 
 def _call_and_uses(r, u, i, bits):
   o = _mk(r, u, i, bits)
+  # the parent is used as a cache key first (as the conversion cache does); the callee options
+  # derived afterwards must still hash and compare like a freshly built equal value
+  h0 = hash(o)
+  table = {o: 'parent'}
   c = o.call_options()
+  fresh = converter.ConversionOptions(recursive=r, user_requested=False, internal_convert_user_code=r,
+                                      optional_features=_features(bits, 'tuple'))
+  if not (c == fresh and fresh == c and hash(c) == hash(fresh) and hash(o) == h0):
+    return False
+  table[c] = 'callee'
+  if table.get(fresh) != 'callee' or table.get(_mk(r, u, i, bits)) != ('callee' if (u is False and i == r) else 'parent'):
+    return False
   want_feats = frozenset(f for f, b in zip(FEATS, bits) if b)
   if not (c.recursive == r and c.user_requested is False and c.internal_convert_user_code == r
           and c.optional_features == want_feats):
